@@ -1,4 +1,4 @@
-"""C07 / C12 / C04 / C11: tlexport.packet.Packet.__init__ against the assumed record model of dpkt's decoders.
+"""C07 / C12 / C04 / C11 / C05 / C01: tlexport.packet.Packet.__init__ against the assumed record model of dpkt's decoders.
 
 dpkt.ethernet.Ethernet(buf) is a record {src, dst, data}; data is an IP {src, dst, p, data} / IP6 {src, dst, nxt, data} record or
 something else; its data is a TCP {sport, dport, seq, ack, sum, data} / UDP {sport, dport, sum, data} record or something else.
@@ -12,7 +12,7 @@ PK = "tlexport.packet.Packet"
 KINDS = [(v6, l4) for v6 in (False, True) for l4 in ("tcp", "udp", "other")] + [(None, "non_ip")]
 
 
-@harness(["C07", "C12", "C04", "C11"], "packet.init", functions=[PK + ".__init__"], cases=KINDS)
+@harness(["C07", "C12", "C04", "C11", "C05", "C01"], "packet.init", functions=[PK + ".__init__"], cases=KINDS)
 def h_packet_init(c, ipv6, l4):
     if c.native:
         return
@@ -24,19 +24,48 @@ def h_packet_init(c, ipv6, l4):
     sport, dport = c.int("sport", 0, 65535), c.int("dport", 0, 65535)
     seq, ack = c.int("seq", 0, 2 ** 32 - 1), c.int("ack", 0, 2 ** 32 - 1)
     payload = c.bytes("transport_payload")
+    # the records carry EVERY field dpkt's decoders set (a change that reads one of them is executed, not answered with a spurious
+    # AttributeError); all of them arbitrary
+    u8, u16, u32 = (lambda n: c.int(n, 0, 255)), (lambda n: c.int(n, 0, 65535)), (lambda n: c.int(n, 0, 2 ** 32 - 1))
+    sums = {}
     if l4 == "tcp":
-        seg = c.record("dpkt.tcp.TCP", sport=sport, dport=dport, seq=seq, ack=ack, sum=c.int("tcp_sum", 0, 65535), data=payload)
+        sums["l4"] = u16("tcp_sum")
+        seg = c.record("dpkt.tcp.TCP", sport=sport, dport=dport, seq=seq, ack=ack, off=c.int("tcp_off", 5, 15), flags=u8("tcp_flags"), win=u16("tcp_win"),
+                       sum=sums["l4"], urp=u16("tcp_urp"), opts=c.bytes("tcp_opts", max_len=40), data=payload)
     elif l4 == "udp":
-        seg = c.record("dpkt.udp.UDP", sport=sport, dport=dport, sum=c.int("udp_sum", 0, 65535), data=payload)
+        sums["l4"] = u16("udp_sum")
+        seg = c.record("dpkt.udp.UDP", sport=sport, dport=dport, ulen=u16("udp_ulen"), sum=sums["l4"], data=payload)
     else:
-        seg = c.record("dpkt.icmp.ICMP", data=payload)
+        seg = c.record("dpkt.icmp.ICMP", type=u8("icmp_type"), code=u8("icmp_code"), sum=u16("icmp_sum"), data=payload)
     if l4 == "non_ip":
-        net = c.record("dpkt.arp.ARP")
+        net = c.record("dpkt.arp.ARP", op=u16("arp_op"), data=const(b""))
     elif ipv6:
-        net = c.record("dpkt.ip6.IP6", src=isrc, dst=idst, nxt=c.int("next_header", 0, 255), data=seg)
+        net = c.record("dpkt.ip6.IP6", v=6, fc=u8("ip6_fc"), flow=c.int("ip6_flow", 0, 2 ** 20 - 1), plen=u16("ip6_plen"), nxt=c.int("next_header", 0, 255),
+                       hlim=u8("ip6_hlim"), src=isrc, dst=idst, extension_hdrs={}, all_extension_headers=[], data=seg)
     else:
-        net = c.record("dpkt.ip.IP", src=isrc, dst=idst, p=c.int("protocol", 0, 255), data=seg)
-    eth = c.record("dpkt.ethernet.Ethernet", src=esrc, dst=edst, data=net)
+        sums["ip"] = u16("ip_sum")
+        net = c.record("dpkt.ip.IP", v=4, hl=c.int("ip_hl", 5, 15), tos=u8("ip_tos"), len=u16("ip_len"), id=u16("ip_id"), off=u16("ip_off"), ttl=u8("ip_ttl"),
+                       p=c.int("protocol", 0, 255), sum=sums["ip"], src=isrc, dst=idst, opts=c.bytes("ip_opts", max_len=40), data=seg)
+    eth = c.record("dpkt.ethernet.Ethernet", src=esrc, dst=edst, type=u16("ether_type"), data=net)
+
+    # assumed contract of dpkt 1.9.8 (read from its source; the same model as in contracts/checksums.py): serialising an IP / IP6 object is
+    # NOT pure - when the transport checksum field of the parsed segment is zero (and, for IPv4, the header checksum too) __bytes__ computes
+    # the correct checksum and WRITES IT BACK into ip.data.sum, the very object Packet exposes as .tcp / .udp
+    def ip_bytes(I, o):
+        d = o.attrs["data"]
+        if "sum" in getattr(d, "attrs", {}):
+            may = d.attrs["sum"] == 0
+            if "sum" in o.attrs:
+                may = band(may, o.attrs["sum"] == 0)
+            if I.truth(may):
+                d.attrs["sum"] = c.fresh_int("checksum_written_back_by_dpkt", 0, 65535)
+        return c.bytes_fresh("ip_packet_bytes", 20, None)
+    for k in ("dpkt.ip6.IP6", "dpkt.ip.IP"):
+        c.lib_model_raw(k + ".__bytes__", ip_bytes)
+        c.lib_model_raw(k + ".__len__", lambda I, o: c.fresh_int("ip_packet_length", 20, 65575))
+    for k in ("dpkt.tcp.TCP", "dpkt.udp.UDP", "dpkt.ethernet.Ethernet"):
+        c.lib_model_raw(k + ".__bytes__", lambda I, o: c.bytes_fresh("serialised", 8, None))
+        c.lib_model_raw(k + ".__len__", lambda I, o: c.fresh_int("serialised_length", 8, 65575))
     decoded = []
     c.lib_model("dpkt.ethernet.Ethernet", lambda b: decoded.append(b) or eth)
     out = c.new(PK, buf, ts)
@@ -55,6 +84,9 @@ def h_packet_init(c, ipv6, l4):
     c.ensure("endpoints.macs_in_direction", g("ethernet_src") is esrc and g("ethernet_dst") is edst)
     c.ensure("endpoints.addresses_in_direction", g("ip_src") is isrc and g("ip_dst") is idst)
     c.ensure("ip_object_is_the_decoders", g("ip") is net)
+    # the checksum fields the decoder delivered are what -c will verify: building the wrapper must not touch them (dpkt rewrites a zero
+    # checksum field when an IP object is serialised)
+    c.ensure("decoders_checksum_fields_untouched", ("l4" not in sums or c.same_object(seg.attrs["sum"], sums["l4"])) and ("ip" not in sums or c.same_object(net.attrs["sum"], sums["ip"])))
     if l4 == "tcp":
         c.ensure("tcp.flags", g("tcp_packet") is True and g("udp_packet") is False)
         c.ensure("tcp.ports_in_direction", c.same_object(g("sport"), sport) and c.same_object(g("dport"), dport))
